@@ -187,6 +187,14 @@ def listener_filter(chk, rule: str):
         g = [(src(e), p) for e, p in fm.facts_at(fm.stmt_of(c))]
         chk.check(("msg.is_error_frame", False) in g and ("msg.is_remote_frame", False) in g, rule, f"{NET}:MessageListener.on_message_received | error and remote frames not dispatched",
                   ml.loc(c), f"notify reached under {g}: a remote (RTR) frame would be delivered to the PDO maps as an empty data frame")
+        other = [(t, p) for t, p in g if "is_error_frame" not in t and "is_remote_frame" not in t]
+        chk.check(not other, rule, f"{NET}:MessageListener.on_message_received | every data frame is dispatched", ml.loc(c),
+                  f"notify additionally depends on {other}: data frames for which this does not hold (e.g. looped-back frames with is_rx False) never reach the subscribers")
+        chk.check([src(a) for a in c.args] == ["msg.arbitration_id", "msg.data", "msg.timestamp"], rule, f"{NET}:MessageListener.on_message_received | id, data and timestamp handed on as received",
+                  ml.loc(c), f"{src(c)}: subscribers such as PdoMap.on_message keep the data object and write into it; it must be the frame's own bytearray")
+    wit = must_pass(fm.cfg, lambda n: node_calls(n, ".notify"),
+                    skip_edge=lambda n, lab: n.kind == "test" and ("is_error_frame" in src(n.ast) or "is_remote_frame" in src(n.ast)) and lab == "T")
+    chk.check(wit is None, rule, f"{NET}:MessageListener.on_message_received | data frames are dispatched on every path", ml.loc(), f"{path_text(wit) if wit else ''}")
 
 
 def setdata_updates_task(chk, rule: str):
@@ -564,3 +572,31 @@ def readinto_delivers_all(chk, rule: str, cname: str):
               f"{[src(s_) for s_ in stores]}: bytes of the segment that are not stored are gone (the segment was already consumed from the bus); the caller gets data with bytes missing "
               f"and no error")
     chk.check(len(rets) == 1 and src(rets[0].value) == f"len({d})", rule, f"{CL}:{cname}.readinto | reports the segment's length", f.loc(), f"{[src(r) for r in rets]}")
+
+
+def pdo_subscribe(chk, rule: str):
+    """PdoMap.subscribe(): an enabled map is registered for (cob_id, on_message) every time it runs (Network.subscribe is
+    idempotent), a disabled one never; nothing else is registered or removed here."""
+    repo, folder = ctx(chk)
+    sub = repo.func(PB, "PdoMap.subscribe", f"{chk.prop}.{rule}")
+    fs = ff_for(chk, sub, f"{chk.prop}.{rule}")
+    calls = find_calls(sub.node, ".subscribe")
+    chk.floor(rule, len(calls), 1, "network.subscribe in PdoMap.subscribe")
+    for c in calls:
+        g = [src(e) for e, p in fs.facts_at(fs.stmt_of(c)) if p]
+        args = [src(a) for a in c.args]
+        recv = c.func.value
+        if isinstance(recv, ast.Name) and fs.one_def(recv.id) is not None:
+            recv = fs.one_def(recv.id)
+        chk.check("self.enabled" in g, rule, f"{PB}:PdoMap.subscribe | only when enabled", sub.loc(c), f"subscribes under {g}")
+        chk.check(args == ["self.cob_id", "self.on_message"] and src(recv) == "self.pdo_node.network", rule,
+                  f"{PB}:PdoMap.subscribe | what", sub.loc(c), f"{src(c)}; expected self.pdo_node.network.subscribe(self.cob_id, self.on_message)")
+    sub_nodes = [n for n in fs.cfg.nodes if node_calls(n, ".subscribe") and not node_calls(n, ".unsubscribe")]
+    wit = must_pass(fs.cfg, lambda n: n in sub_nodes,
+                    skip_edge=lambda n, lab: n.kind == "test" and ((src(n.ast) == "self.enabled" and lab == "F") or (src(n.ast) == "not self.enabled" and lab == "T")))
+    chk.check(wit is None, rule, f"{PB}:PdoMap.subscribe | an enabled map is registered on every call", sub.loc(),
+              f"a path of an enabled map returns without network.subscribe() (e.g. because the map remembers having subscribed): after the node moved to another network, or "
+              f"the network's table was cleared, subscribe()/read()/save() silently do nothing: {path_text(wit) if wit else ''}")
+    for c in find_calls(sub.node, ".unsubscribe"):
+        chk.check(len(c.args) >= 2, rule, f"{PB}:PdoMap.subscribe | removes at most its own handler", sub.loc(c),
+                  f"`{src(c)[:60]}` without a callback removes every subscriber of that COB-ID, also the maps of other nodes that listen to it")
